@@ -114,4 +114,170 @@ theorem skipBlock_else (ctx : LCtx) (lbl : String) : ∀ (els : Option (List BCm
     exact skipBlock_flats ctx b h (d + 1) R
 end
 
+/-! ### the line interpreter is sound for the line-level relation -/
+
+theorem lrun_step {whole : List BLine} {f : Nat} {l : BLine} {rest : List BLine} {c c' : Cfg} {o : Out}
+    (ih : ∀ L c o c', lrun whole f L c = some (o, c') → LRun whole L c o c')
+    (hl : plainB l = true)
+    (h : (if l == .raw "endlocal & exit /B %_e%" then (asCode (c.ρ "_e")).map (fun k => (Out.exit k, c)) else
+      match stepB l c with
+      | some (.normal, c1) => lrun whole f rest c1
+      | some (.exit k, c') => some (.exit k, c')
+      | _ => none) = some (o, c')) : LRun whole (l :: rest) c o c' := by
+  split at h
+  · rename_i he
+    have : l = .raw "endlocal & exit /B %_e%" := by simpa using he
+    subst this
+    cases hk : asCode (c.ρ "_e") with
+    | none => simp [hk] at h
+    | some k =>
+      simp only [hk, Option.map_some, Option.some.injEq, Prod.mk.injEq] at h
+      obtain ⟨rfl, rfl⟩ := h
+      exact .finish hk
+  · split at h
+    · rename_i c1 hs
+      exact .simple hs (ih _ _ _ _ h)
+    · rename_i k c2 hs
+      simp only [Option.some.injEq, Prod.mk.injEq] at h
+      obtain ⟨rfl, rfl⟩ := h
+      exact .exit hs
+    · simp at h
+
+theorem lrun_sound (whole : List BLine) : ∀ (f : Nat) (L : List BLine) (c : Cfg) (o : Out) (c' : Cfg),
+    lrun whole f L c = some (o, c') → LRun whole L c o c'
+  | 0, _, _, _, _, h => by simp [lrun] at h
+  | f + 1, [], c, o, c', h => by
+    simp only [lrun, Option.some.injEq, Prod.mk.injEq] at h
+    obtain ⟨rfl, rfl⟩ := h
+    exact .done
+  | f + 1, l :: rest, c, o, c', h => by
+    have ih := lrun_sound whole f
+    cases l with
+    | clabel n => simp only [lrun] at h; exact .label (ih _ _ _ _ h)
+    | label n => simp only [lrun] at h; exact .plabel (ih _ _ _ _ h)
+    | close => simp only [lrun] at h; exact .close (ih _ _ _ _ h)
+    | cgoto n =>
+      simp only [lrun] at h
+      split at h
+      · rename_i tgt ht
+        exact .jump ht (ih _ _ _ _ h)
+      · simp at h
+    | opn t =>
+      simp only [lrun] at h
+      split at h
+      · rename_i ht
+        exact .enter ht (ih _ _ _ _ h)
+      · rename_i ht
+        split at h
+        · rename_i r' hs
+          exact .skipToClose ht hs (ih _ _ _ _ h)
+        · rename_i r' hs
+          exact .skipToElse ht hs (ih _ _ _ _ h)
+        · rename_i t' r' hs
+          exact .skipToElseIf ht hs (ih _ _ _ _ h)
+        · simp at h
+      · simp at h
+    | elseOpen => simp [lrun, stepB] at h
+    | elseIfOpen t => simp [lrun, stepB] at h
+    | set n v => simp only [lrun] at h; exact lrun_step ih rfl h
+    | setA n a op b => simp only [lrun] at h; exact lrun_step ih rfl h
+    | ifSet q a os b hh x y => simp only [lrun] at h; exact lrun_step ih rfl h
+    | andSet a b hh => simp only [lrun] at h; exact lrun_step ih rfl h
+    | orSet a b hh => simp only [lrun] at h; exact lrun_step ih rfl h
+    | call n args => simp only [lrun] at h; exact lrun_step ih rfl h
+    | goto n => simp only [lrun] at h; exact lrun_step ih rfl h
+    | raw t => simp only [lrun] at h; exact lrun_step ih rfl h
+
+/-! ### the line-level relation is deterministic -/
+
+theorem LRun.det {whole : List BLine} {L : List BLine} {c : Cfg} {o1 o2 : Out} {c1 c2 : Cfg}
+    (h1 : LRun whole L c o1 c1) (h2 : LRun whole L c o2 c2) : o1 = o2 ∧ c1 = c2 := by
+  induction h1 generalizing o2 c2 with
+  | done => cases h2; exact ⟨rfl, rfl⟩
+  | simple hs _ ih =>
+    cases h2 with
+    | simple hs' r' => rw [hs] at hs'; simp only [Option.some.injEq, Prod.mk.injEq, true_and] at hs'; subst hs'; exact ih r'
+    | exit hs' => rw [hs] at hs'; simp at hs'
+    | label _ => simp [stepB] at hs
+    | jump _ _ => simp [stepB] at hs
+    | enter _ _ => simp [stepB] at hs
+    | skipToClose _ _ _ => simp [stepB] at hs
+    | skipToElse _ _ _ => simp [stepB] at hs
+    | skipToElseIf _ _ _ => simp [stepB] at hs
+    | close _ => simp [stepB] at hs
+    | plabel _ => simp [stepB] at hs
+    | finish _ => simp [stepB] at hs
+  | exit hs =>
+    cases h2 with
+    | simple hs' _ => rw [hs] at hs'; simp at hs'
+    | exit hs' => rw [hs] at hs'; simp only [Option.some.injEq, Prod.mk.injEq, Out.exit.injEq] at hs'; exact ⟨by rw [hs'.1], hs'.2⟩
+    | label _ => simp [stepB] at hs
+    | jump _ _ => simp [stepB] at hs
+    | enter _ _ => simp [stepB] at hs
+    | skipToClose _ _ _ => simp [stepB] at hs
+    | skipToElse _ _ _ => simp [stepB] at hs
+    | skipToElseIf _ _ _ => simp [stepB] at hs
+    | close _ => simp [stepB] at hs
+    | plabel _ => simp [stepB] at hs
+    | finish _ => simp [stepB] at hs
+  | label _ ih =>
+    cases h2 with
+    | label r' => exact ih r'
+    | simple hs' _ => simp [stepB] at hs'
+    | exit hs' => simp [stepB] at hs'
+  | jump ht _ ih =>
+    cases h2 with
+    | jump ht' r' => rw [ht] at ht'; simp only [Option.some.injEq] at ht'; subst ht'; exact ih r'
+    | simple hs' _ => simp [stepB] at hs'
+    | exit hs' => simp [stepB] at hs'
+  | enter ht _ ih =>
+    cases h2 with
+    | enter _ r' => exact ih r'
+    | skipToClose ht' _ _ => rw [ht] at ht'; simp at ht'
+    | skipToElse ht' _ _ => rw [ht] at ht'; simp at ht'
+    | skipToElseIf ht' _ _ => rw [ht] at ht'; simp at ht'
+    | simple hs' _ => simp [stepB] at hs'
+    | exit hs' => simp [stepB] at hs'
+  | skipToClose ht hk _ ih =>
+    cases h2 with
+    | enter ht' _ => rw [ht] at ht'; simp at ht'
+    | skipToClose _ hk' r' => rw [hk] at hk'; simp only [Option.some.injEq, List.cons.injEq, true_and] at hk'; subst hk'; exact ih r'
+    | skipToElse _ hk' _ => rw [hk] at hk'; simp at hk'
+    | skipToElseIf _ hk' _ => rw [hk] at hk'; simp at hk'
+    | simple hs' _ => simp [stepB] at hs'
+    | exit hs' => simp [stepB] at hs'
+  | skipToElse ht hk _ ih =>
+    cases h2 with
+    | enter ht' _ => rw [ht] at ht'; simp at ht'
+    | skipToClose _ hk' _ => rw [hk] at hk'; simp at hk'
+    | skipToElse _ hk' r' => rw [hk] at hk'; simp only [Option.some.injEq, List.cons.injEq, true_and] at hk'; subst hk'; exact ih r'
+    | skipToElseIf _ hk' _ => rw [hk] at hk'; simp at hk'
+    | simple hs' _ => simp [stepB] at hs'
+    | exit hs' => simp [stepB] at hs'
+  | skipToElseIf ht hk _ ih =>
+    cases h2 with
+    | enter ht' _ => rw [ht] at ht'; simp at ht'
+    | skipToClose _ hk' _ => rw [hk] at hk'; simp at hk'
+    | skipToElse _ hk' _ => rw [hk] at hk'; simp at hk'
+    | skipToElseIf _ hk' r' =>
+      rw [hk] at hk'; simp only [Option.some.injEq, List.cons.injEq, BLine.elseIfOpen.injEq] at hk'
+      obtain ⟨e1, e2⟩ := hk'; subst e1; subst e2; exact ih r'
+    | simple hs' _ => simp [stepB] at hs'
+    | exit hs' => simp [stepB] at hs'
+  | close _ ih =>
+    cases h2 with
+    | close r' => exact ih r'
+    | simple hs' _ => simp [stepB] at hs'
+    | exit hs' => simp [stepB] at hs'
+  | plabel _ ih =>
+    cases h2 with
+    | plabel r' => exact ih r'
+    | simple hs' _ => simp [stepB] at hs'
+    | exit hs' => simp [stepB] at hs'
+  | finish hk =>
+    cases h2 with
+    | finish hk' => rw [hk] at hk'; simp only [Option.some.injEq] at hk'; exact ⟨by rw [hk'], rfl⟩
+    | simple hs' _ => simp [stepB] at hs'
+    | exit hs' => simp [stepB] at hs'
+
 end Tsh.SemB
